@@ -43,11 +43,12 @@ def run(rep, tier, seed, tr_errors):
         for noise in ((rng.choice([0.02, 0.05]), rng.choice([0.2, 1.0])) if tier == "quick" else (0.02, 0.05, 0.2, 0.5, 1.0)):
             plan.append((ident, noise, rng.randint(1, 10 ** 6)))
     # ladders written as circuit description codes (the quantifier's "random RC/RQ ladder circuits"), among them spectra dominated by
-    # their series resistance; calibrated on the unchanged tree: 24 runs gave 0.90 .. 1.37
+    # their series resistance.  On the unchanged tree 264 runs gave 0.78 .. 1.68 and ONE run 3.54 (the single-resistor shortcut of the
+    # limits estimation fires for about one seed in a hundred on such spectra), so a ladder is judged by the MEDIAN over its seeds
+    ladder_plan = []
     for cdc_ in ("R{R=1000}(R{R=50}C{C=1e-5})", "R{R=500}(R{R=100}C{C=1e-5})(R{R=60}C{C=1e-3})"):
         for noise in ((0.05, 0.2) if tier == "quick" else (0.05, 0.1, 0.2, 0.5)):
-            for _ in range(2 if tier == "quick" else 4):
-                plan.append((cdc_, noise, rng.randint(1, 10 ** 6)))
+            ladder_plan.append((cdc_, noise, [rng.randint(1, 10 ** 6) for _ in range(5 if tier == "quick" else 9)]))
     ladders = 1 if tier == "quick" else 8
     stats = {"runs": 0, "ratios": [], "drift_factors": []}
 
@@ -85,6 +86,23 @@ def run(rep, tier, seed, tr_errors):
                     bad.append((desc, "the drift-corrupted counterpart has only %.1f x the pseudo chi-squared" % fac))
             except Exception as e:  # noqa
                 bad.append((desc, "drift counterpart raised %s: %s" % (type(e).__name__, str(e)[:100])))
+    for cdc_, noise, seeds_ in ladder_plan:
+        ratios_ = []
+        desc = dict(identifier=cdc_, noise=noise, seeds=seeds_, judged="median over the seeds")
+        for sd in seeds_:
+            try:
+                r = kk(pyimpspec.generate_mock_data(cdc_, noise=noise, seed=sd)[0])
+                ratios_.append(float(r.get_estimated_percent_noise()) / noise)
+                rep.evaluations += 1
+                stats["runs"] += 1
+            except Exception as e:  # noqa
+                bad.append((desc, "raised %s: %s" % (type(e).__name__, str(e)[:150])))
+        rep.distinct.add(json.dumps(desc))
+        if ratios_:
+            med = sorted(ratios_)[len(ratios_) // 2]
+            stats["ratios"].append(round(med, 3))
+            if not (BAND[0] <= med <= BAND[1]):
+                bad.append((desc, "the median estimated noise over %d seeds is %.2f x the injected %.4g %% (band %.1f .. %.1f; ratios %s)" % (len(ratios_), med, noise, BAND[0], BAND[1], [round(x, 2) for x in ratios_])))
     # suggested num_RC inside the reported limits (one evaluation of the candidates, then suggest_num_RC)
     for i in range(ladders + (1 if tier == "quick" else 4)):
         if i < ladders:
